@@ -337,3 +337,20 @@ Example C03_example_replay :
   ex_flags (fst (ex_step false st2 (EDns 1061 5 (ex_V ex_B)))) 0 = (true, true, 777, 1001) /\
   ex_flags (fst (ex_step false st2 (EDns 1061 5 (ex_V ex_B)))) 1 = (true, false, 5, 1061).
 Proof. vm_compute. repeat split; reflexivity. Qed.
+
+(* scope note: the address the I reply carries (-n ns_ip, else the destination address of the query)
+   is also what iodined answers to an A query for ns.<topdomain> from anybody -- that is the public
+   address record of the delegated name server, served by tunnel_dns before any session handling
+   (an OAux output), and is not an effect of handle_null_request *)
+Example C03_scope_ns_record :
+  let c := {| c_topdomain := ex_dom; c_password := ex_pw; c_check_ip := true; c_my_ip := 16777226;
+              c_netmask := 27; c_mtu := 1130; c_ns_ip := Some [198; 51; 100; 7]; c_bind := false |} in
+  let q := {| h_name := [110; 115; 46] ++ ex_dom; h_type := 1; h_id := 77; h_from := ex_B; h_id2 := 0;
+              h_from2 := addr0; h_dest := None |} in
+  dispatch c q = None /\
+  match step login_stub zc_frame unz_frame c (init_state ex_ips) (EDns 1000 0 q) with
+  | (st', [OAux to bytes]) => ex_sig st' = ex_sig (init_state ex_ips) /\ to = ex_B /\
+                               skipn (length bytes - 4) bytes = [198; 51; 100; 7]
+  | _ => False
+  end.
+Proof. vm_compute. repeat split; reflexivity. Qed.
